@@ -103,6 +103,32 @@ func classifySrc(v ssa.Value, selfField *types.Var, depth int) string {
 				}
 				return "field:" + f.Name()
 			}
+			// the element of a literal list of constants a loop ranges over: one of those constants
+			if ia, ok := x.X.(*ssa.IndexAddr); ok && rangeHeader(ia.Index) != nil {
+				if sl, ok := ia.X.(*ssa.Slice); ok {
+					if a, ok := sl.X.(*ssa.Alloc); ok {
+						var cs []string
+						allConst := true
+						for _, ref := range *a.Referrers() {
+							if ea, ok := ref.(*ssa.IndexAddr); ok && ea != ia {
+								for _, r2 := range *ea.Referrers() {
+									if st, ok := r2.(*ssa.Store); ok {
+										if k, ok := st.Val.(*ssa.Const); ok && k.Value != nil {
+											cs = append(cs, "const:"+k.Value.ExactString())
+										} else {
+											allConst = false
+										}
+									}
+								}
+							}
+						}
+						if allConst && len(cs) > 0 {
+							sort.Strings(cs)
+							return "oneof:" + strings.Join(cs, "\x01")
+						}
+					}
+				}
+			}
 			// load of a captured variable (closure free variable of pointer type)
 			if fv, ok := x.X.(*ssa.FreeVar); ok {
 				var dom []ssa.Value
@@ -694,10 +720,25 @@ func (oi *optInfo) storeStrings() []string {
 	var out []string
 	seen := map[string]bool{}
 	for _, s := range oi.Stores {
-		x := s.Target + "." + s.Field + "<-" + s.Src
-		if !seen[x] {
-			seen[x] = true
-			out = append(out, x)
+		// a source that is one of several constants (a loop over a literal candidate list) stands for one store each
+		srcs := []string{s.Src}
+		if i := strings.Index(s.Src, "oneof:"); i >= 0 {
+			j := i + len("oneof:")
+			end := j
+			for end < len(s.Src) && s.Src[end] != ')' && s.Src[end] != ',' {
+				end++
+			}
+			srcs = nil
+			for _, alt := range strings.Split(s.Src[j:end], "\x01") {
+				srcs = append(srcs, s.Src[:i]+alt+s.Src[end:])
+			}
+		}
+		for _, src := range srcs {
+			x := s.Target + "." + s.Field + "<-" + src
+			if !seen[x] {
+				seen[x] = true
+				out = append(out, x)
+			}
 		}
 	}
 	sort.Strings(out)
